@@ -60,7 +60,9 @@ HasRef(m) == m.rc # 0 \/ m.ra # 0
 RefOf(m) == IF m.ra # 0 THEN CT(TargetClass(m.ra)) ELSE [c |-> m.rc, i |-> m.ri]
 SigProtected(m) == HasRef(m) /\ ProtType(RefOf(m))
 SigIgnored(m) == HasRef(m) /\ RefOf(m).i = 0 /\ Cmd.c = "ignoreinvolved" /\ Cmd.k = RefOf(m).c
-SigRvalue(m) == m.k \in {"rval", "rfunc"} \/ (m.ra # 0 /\ "rref" \in ChainWraps(m.ra))
+SigRvalue(m) == \/ m.k \in {"rval", "rfunc"}
+                \/ (m.ra # 0 /\ "rref" \in ChainWraps(m.ra))
+                \/ \E q \in 1..Len(m.sig.ps) : m.sig.ps[q].t.m = "rref"
 
 \* would get_type() walk the members of class c?  (define_struct_type's early returns)
 Definable(c) ==
@@ -71,13 +73,15 @@ Definable(c) ==
 ---------------------------------------------------------------------------
 (* (a) THE RULE                                                            *)
 
-MethodKinds == {"meth", "smeth", "ctor", "ctorof", "cctor", "getter", "seqget", "usep", "user", "usee", "usea", "reta", "rval", "gct", "dtor",
+MethodKinds == {"meth", "smeth", "ctor", "ctorof", "cctor", "getter", "getter2", "seqget", "seqbad", "usep", "user", "usee", "usea", "reta", "rval", "gct", "dtor",
                 "vmeth", "vdtor", "sig", "opeq", "opneg", "cast"}
 DataKinds == {"data", "datap", "dataa", "cdata", "sdata"}
 \* MAKE_PROPERTY / MAKE_SEQ publish an element / sequence of the class: they are declarations with a visibility like
 \* any other (and never make the accessor they name callable by themselves)
 PropKinds == {"mprop", "mseq"}
-PropGate(c, i) == Mbr(c, i).k \in PropKinds /\ Rank(VisAt(c, i)) <= MinRank
+\* (a property whose accessor cannot serve - wrong arity / index type - yields no element, only a diagnostic)
+PropGate(c, i) == /\ Mbr(c, i).k \in PropKinds /\ Rank(VisAt(c, i)) <= MinRank
+                  /\ Mbr(c, Mbr(c, i).gi).k \in {"getter", "seqget"}
 \* a member function of a defined class is callable iff
 MethodGate(c, i) == LET m == Mbr(c, i) IN
   /\ m.k \in MethodKinds
@@ -101,7 +105,7 @@ NestGate(c, i) == LET m == Mbr(c, i) IN
 \* namespace-scope declarations: build() only looks at the global scope of S_local files
 TopGate(t) == LET d == lib.tops[t] IN
   /\ ~d.ns /\ LocalFile(d.file) /\ Rank(TopVis(t)) <= MinRank
-  /\ d.k \in {"func", "usef", "usefa", "var", "macro"}
+  /\ d.k \in {"func", "sig", "usef", "usefa", "var", "macro"}
   /\ ~SigProtected(d) /\ ~SigIgnored(d) /\ ~SigRvalue(d)
 \* "sfunc", "dfunc", "tfunc", "rfunc", "fmacro" never; "tdefc" is a type, below
 
@@ -211,7 +215,7 @@ ScanStep ==
                      /\ glob' = IF scanX THEN glob \cup {CT(X)} ELSE glob
                      /\ UNCHANGED calls
               ELSE IF /\ LocalFile(d.file) /\ Rank(TopVis(t)) <= MinRank
-                      /\ d.k \in {"func", "usef", "usefa", "var", "macro"}
+                      /\ d.k \in {"func", "sig", "usef", "usefa", "var", "macro"}
                       /\ ~SigProtected(d) /\ ~SigIgnored(d) /\ ~SigRvalue(d)
                 THEN /\ calls' = calls \cup {[t |-> "t", c |-> 0, i |-> t]}
                      /\ Request(IF HasRef(d) THEN {RefOf(d)} ELSE {})
@@ -265,7 +269,8 @@ DefineStep ==
                    /\ glob' = glob \cup {x}                          \* "a struct type should always be global"
                    /\ calls' = calls \cup {[t |-> "m", c |-> c, i |-> i] : i \in meths}
                                      \cup {[t |-> "m", c |-> c, i |-> i] :
-                                              i \in {j \in 1..NM(c) : Mbr(c, j).k \in PropKinds /\ Rank(VisAt(c, j)) <= MinRank}}
+                                              i \in {j \in 1..NM(c) : Mbr(c, j).k \in PropKinds /\ Rank(VisAt(c, j)) <= MinRank
+                                                                        /\ Mbr(c, Mbr(c, j).gi).k \in {"getter", "seqget"}}}
                                      \cup {[t |-> "m", c |-> c, i |-> i] : i \in {j \in elems : ~SigProtected(Mbr(c, j))}}
                    /\ req' = (req \ {x}) \cup ((outerT \cup pubBases \cup refs) \ (known \cup {x}))
   /\ UNCHANGED <<lib, cur, done, phase, pos>>
